@@ -9,7 +9,9 @@ from .. import core
 SCOPE = {"truncate", "named"}
 RULE = ("random perfect-recall trees (shared infosets, single-action nodes) x imported profiles "
         "(dirichlet / pure / with zeros / tiny entries) x thresholds {-inf,-1,0, below the smallest positive entry, "
-        "each entry value and its two float neighbours, the largest entry, 1, 2, +inf, NaN}; a case is non-trivial "
+        "each entry value and its two float neighbours, the largest entry, 1, 2, +inf, NaN}; 40 % of the cases continue with a "
+        "sequence of 2-4 further truncations of the same object (thresholds in any order, in place or via clone, get_info in "
+        "between), each step judged against the view just before it; a case is non-trivial "
         "when the truncation changes at least one infoset or hits the nothing-above branch; distinct by "
         "(tree, profile, threshold) hash")
 
@@ -68,6 +70,23 @@ def generate(rng, tier, n):
             d2 = cb.truncate(d1, h)
             cb.named(d2)
             cb.info(d1)
+            # operation sequences on one profile object (40 %): further truncations in any order of thresholds
+            # (lower after higher, equal, higher), in place or through a clone, each step judged against the
+            # named view just before it; info/named in between must not disturb anything
+            steps = []
+            if rng.random() < 0.4:
+                pos = sorted({p for r in rows for p in r if p > 0.0})
+                cur, cur_named = src, 1
+                for _ in range(rng.choice([2, 3, 4])):
+                    hh = rng.choice([h, h, 0.0, float("nan")] + ([rng.choice(pos), rng.choice(pos) * 0.5, next_down(rng.choice(pos)),
+                                                                   max(pos), min(pos) * 0.5] if pos else []))
+                    if rng.random() < 0.3:
+                        cb.info(cur)
+                    nxt = cb.truncate(cur, hh, inplace=rng.random() < 0.5)
+                    after = cb.named(nxt)
+                    steps.append((cur_named, hh, after))
+                    cur, cur_named = nxt, after
+            cb.meta["steps"] = steps
             cases.append(cb)
             cid += 1
             if len(cases) >= n:
@@ -101,6 +120,29 @@ def monitor(cb, impl):
         return hits
     h = cb.meta["thresh"]
     multi, _ = infosets_of(cb.tree)
+    for before, hh, after in cb.meta.get("steps", []):
+        if before >= len(ops) or after >= len(ops) or "ok" not in ops[before] or "ok" not in ops[after]:
+            if after < len(ops) and "panic" in ops[after]:
+                hits.append(("as_named panicked in a truncation sequence: %s" % ops[after]["panic"], "panic"))
+            continue
+        for pl in (0, 1):
+            r_before = _rows_from_named(ops[before]["ok"][pl]["items"], multi[pl + 1])
+            r_after = _rows_from_named(ops[after]["ok"][pl]["items"], multi[pl + 1])
+            if r_before is None or r_after is None:
+                hits.append(("an infoset is missing from a named view (player %d)" % (pl + 1), "missing"))
+                continue
+            for (info, acts), r0, r1 in zip(multi[pl + 1], r_before, r_after):
+                above = [p > hh for p in r0]
+                if any(above):
+                    tot = sum(p for p, a in zip(r0, above) if a)
+                    exp = [p / tot if a else 0.0 for p, a in zip(r0, above)]
+                else:
+                    exp = r0
+                if any((e == 0.0) != (x == 0.0) for e, x in zip(exp, r1)) or \
+                        any(not close(e, x, 1e-9) for e, x in zip(exp, r1)):
+                    hits.append(("in a sequence of truncations on one profile, infoset %s of player %d: truncate(%r) gave %r, "
+                                 "expected %r (before that call: %r; thresholds so far %r)"
+                                 % (info, pl + 1, hh, r1, exp, r0, [h] + [x[1] for x in cb.meta["steps"]]), "wrong-support-seq"))
     for pl in (0, 1):
         src = _rows_from_named(ops[1]["ok"][pl]["items"], multi[pl + 1])
         d1 = _rows_from_named(ops[3]["ok"][pl]["items"], multi[pl + 1])
